@@ -226,11 +226,15 @@ Section Run.
   Proof.
     intros E Hids0. destruct (log_facts lg Hok) as (F1 & F2 & F3 & F4 & F5 & F6).
     pose proof (log_chain lg Hok) as C. fold ann in C, F1, F2, F3, F4, F5, F6.
+    assert (F2w : Forall (fun ar => okids (ids_of ar) (n_demes lg) /\ ids_of ar <> []) ann)
+      by (eapply Forall_impl; [|exact F2]; intros a0 [A0 N0]; split; auto; now apply asc_okids).
+    assert (Fasc : forall x, In x ann -> asc 0 (ids_of x) (n_demes lg))
+      by (intros x Hx; pose proof F2 as F2c; rewrite Forall_forall in F2c; exact (proj1 (F2c x Hx))).
     assert (Lf : forall id, (id < length (births_of ann))%nat -> life ann id (b_start (nth id (births_of ann) dbirth)))
       by (intros id H; exact (log_life lg id Hok H)).
     assert (Har : In ar ann) by (rewrite E; apply in_or_app; right; now left).
     rewrite Forall_forall in F6. destruct (F6 _ Har) as (Ld & Ls & Lm).
-    destruct (integ_raw ann Inf C Lf F1 F2 ar Har Ld Ls Lm) as (Elive & Eiv & ET & f & Ef & Ecall). cbv zeta in *.
+    destruct (integ_raw ann Inf C Lf F1 F2w ar Har (Fasc ar Har) Ld Ls Lm) as (Elive & Eiv & ET & f & Ef & Ecall). cbv zeta in *.
     change (raw_graph_of ann) with G in Elive, Eiv, ET, Ecall.
     assert (Nn : ids_of ar <> []) by (intros K; rewrite K in Ld; cbn in Ld; lia).
     unfold run_step. cbn [s_ok negb s_ids]. rewrite Elive, Eiv, ET.
@@ -243,9 +247,9 @@ Section Run.
     { unfold icall. rewrite <- ET at 2. rewrite Ecall. destruct (n0 <? rawT (win ar))%num; [|reflexivity]. rewrite Ef, emits_calls. reflexivity. }
     rewrite E1. change (snd (win ar)) with (Fin (b_of ar)).
     unfold evs. rewrite events_at_app. change (raw_events lg) with (raw_events_of ann). rewrite fin_last.
-    rewrite (raw_events_at ann Inf C Lf F1 F2 F3 (ltac:(unfold ann, annotated; discriminate)) F4 F5 P ar Q E).
+    rewrite (raw_events_at ann Inf C Lf F1 F2w F3 (ltac:(unfold ann, annotated; discriminate)) F4 F5 P ar Q E).
     unfold G, raw_graph. fold ann.
-    rewrite (marg_at ann Inf C Lf F1 F2 (log_step lg Hok) (log_gone lg Hok) P ar Q E).
+    rewrite (marg_at ann Inf C Lf F1 F2w (log_step_r lg (log_ok_okr lg Hok)) (log_gone_r lg (log_ok_okr lg Hok)) P ar Q E).
     destruct Q as [|nx Q'].
     - (* the last window *)
       exists []. split; auto. cbn [hd ar_evs dar map app marg_expected fold_left s_ok negb rev].
@@ -274,7 +278,7 @@ Section Run.
         replace (P ++ ar :: nx :: Q') with ((P ++ [ar]) ++ nx :: Q') by (now rewrite <- app_assoc).
         rewrite (find_map_at (fun x => teqb (fst (st_iv x)) (Fin (b_of ar))) (fun y => rawstep G (win y)) (P ++ [ar]) nx Q').
         * assert (Elive' : st_live (rawstep G (win nx)) = ids_of nx).
-          { unfold rawstep. cbn [st_live]. unfold G, raw_graph. fold ann. apply (present_raw ann Inf C Lf F1 F2 nx Hnx). }
+          { unfold rawstep. cbn [st_live]. unfold G, raw_graph. fold ann. apply (present_raw ann Inf C Lf F1 nx Hnx (Fasc nx Hnx)). }
           assert (Eids : ids_of nx = ev_ids next (ids_of ar) (r_ev (fst rb))) by (rewrite Enx at 1; apply annotate_ids).
           rewrite Elive', Eids, list_eqb_refl. reflexivity.
         * intros y Hy. unfold rawstep. cbn [st_iv fst win].
@@ -318,24 +322,28 @@ Section Run.
   Proof.
     intros HN. destruct (log_facts lg Hok) as (F1 & F2 & F3 & F4 & F5 & F6).
     pose proof (log_chain lg Hok) as C. fold ann in C, F1, F2, F3, F4, F5, F6.
+    assert (F2w : Forall (fun ar => okids (ids_of ar) (n_demes lg) /\ ids_of ar <> []) ann)
+      by (eapply Forall_impl; [|exact F2]; intros a0 [A0 N0]; split; auto; now apply asc_okids).
+    assert (Fasc : forall x, In x ann -> asc 0 (ids_of x) (n_demes lg))
+      by (intros x Hx; pose proof F2 as F2c; rewrite Forall_forall in F2c; exact (proj1 (F2c x Hx))).
     assert (Lf : forall id, (id < length (births_of ann))%nat -> life ann id (b_start (nth id (births_of ann) dbirth)))
       by (intros id H; exact (log_life lg id Hok H)).
     assert (Nn : ann <> []) by (unfold ann, annotated; discriminate).
     unfold core. rewrite (core_run_export std_wirings true N G (raw_events lg) fin HN wf_raw).
-    assert (EU : used_intervals G = map win ann) by (apply (used_intervals_raw ann Inf C Lf F1 F2 F3 Nn)).
+    assert (EU : used_intervals G = map win ann) by (apply (used_intervals_raw ann Inf C Lf F1 F2w F3 Nn)).
     rewrite EU. rewrite existsb_none.
     2:{ intros iv Hiv. apply in_map_iff in Hiv as (ar & <- & Har). unfold G, raw_graph. fold ann.
-        rewrite (present_raw ann Inf C Lf F1 F2 ar Har). rewrite Forall_forall in F6. destruct (F6 _ Har) as ((_ & L5) & _).
+        rewrite (present_raw ann Inf C Lf F1 ar Har (Fasc ar Har)). rewrite Forall_forall in F6. destruct (F6 _ Har) as ((_ & L5) & _).
         apply Nat.ltb_ge. exact L5. }
     cbv zeta. fold steps. fold evs. rewrite run_all.
     (* the first step is the root's *)
     unfold steps, ann, annotated. cbn [map hd]. fold ann.
     assert (Hinit : In (init_ar lg) ann) by (unfold ann, annotated; now left).
     rewrite Forall_forall in F6. destruct (F6 _ Hinit) as (Ld & Ls & Lm).
-    destruct (integ_raw ann Inf C Lf F1 F2 _ Hinit Ld Ls Lm) as (Elive & _). cbv zeta in Elive.
+    destruct (integ_raw ann Inf C Lf F1 F2w _ Hinit (Fasc _ Hinit) Ld Ls Lm) as (Elive & _). cbv zeta in Elive.
     change (raw_graph_of ann) with G in Elive. rewrite Elive.
     assert (Enus : st_nus (rawstep G (win (init_ar lg))) = [SNum (l_nu lg / 1)]).
-    { unfold rawstep. cbn [st_nus]. unfold G, raw_graph. fold ann. rewrite (present_raw ann Inf C Lf F1 F2 _ Hinit), (sizes_list_raw ann Inf C Lf F2 _ Hinit Ls). reflexivity. }
+    { unfold rawstep. cbn [st_nus]. unfold G, raw_graph. fold ann. rewrite (present_raw ann Inf C Lf F1 _ Hinit (Fasc _ Hinit)), (sizes_list_raw ann Inf C Lf F2w _ Hinit Ls). reflexivity. }
     rewrite Enus. cbn [sf_eval hd ids_of init_ar ar_stage sg_ids].
     (* the end of SFS *)
     unfold core_finish. cbn [s_ok s_ids s_calls]. pose proof Hinit as Hl. clear Hl.
